@@ -347,8 +347,8 @@ def date_rows(tier, rng):
     if tier == 'thorough':
         ords = set(range(LO, HI + 1))
     else:
-        off = rng.randrange(11)
-        ords = set(range(LO + off, HI + 1, 11))
+        off = rng.randrange(17)
+        ords = set(range(LO + off, HI + 1, 17))
         for y in range(1900, 2101):
             a = DATE(y, 1, 1).toordinal()
             ords.update(range(max(LO, a - 4), a + 5))
@@ -415,7 +415,10 @@ def interval_rows(tier, rng):
     if tier == 'quick':
         keep = [r for r in rows if r[1] in INTERVAL_ODD + INTERVAL_BAD and r[0].day == 31 and r[0].year == 2000]
         rows = rng.sample(rows, 6000) + keep
-    rows += [(rdate(rng), rng.choice(ss)) for _ in range(1000 if tier == 'quick' else 20000)]
+    elif len(rows) > 40000:
+        keep = [r for r in rows if r[1] in INTERVAL_ODD + INTERVAL_BAD and r[0].day == 31 and r[0].year == 2000]
+        rows = rng.sample(rows, 40000) + keep
+    rows += [(rdate(rng), rng.choice(ss)) for _ in range(1000 if tier == 'quick' else 10000)]
     return rows
 
 
@@ -427,7 +430,7 @@ BIN_ORIGINS = [DATE(2000, 1, 1), DATE(2000, 1, 31), DATE(2000, 2, 29), DATE(1999
 
 
 def bin_rows(tier, rng):
-    near, step = (20, 2477) if tier == 'quick' else (200, 397)
+    near, step = (20, 2477) if tier == 'quick' else (120, 797)
     rows = []
     for o in (BIN_ORIGINS[:7] if tier == 'quick' else BIN_ORIGINS):
         oo = o.toordinal()
@@ -546,7 +549,7 @@ def small_decimals(coefs):
 
 def dec1_rows(tier, rng):
     if tier == 'thorough':
-        coefs = list(range(0, 10000, 3)) + [9995, 9999]
+        coefs = list(range(0, 10000, 5)) + list(range(0, 130)) + [9999]
     else:
         coefs = sorted(set(list(range(0, 60)) + [rng.randrange(10000) for _ in range(100)]
                            + [k * 10 + 5 for k in range(0, 1000, 37)] + [9995, 9999, 5000, 4999, 5001, 2500, 1250]))
@@ -573,7 +576,7 @@ def div_rows(tier, rng):
     if tier == 'quick':
         pool = [x for k, x in enumerate(pool) if k % 4 == 0 or x == 0]
     else:
-        pool = [x for k, x in enumerate(pool) if k % 2 == 0 or x == 0]
+        pool = [x for k, x in enumerate(pool) if k % 3 == 0 or x == 0]
     ints = [0, 1, -1, 2, 3, 7, -9, 10, 64, 1000, 12345678901234567890123456789012]
     rows = []
     k = 0
@@ -894,7 +897,7 @@ def run(tier, rng):
                 'tables) and the Coq model; rows are distinct argument tuples; non-trivial = rows where at least one target '
                 'returned a non-NULL, non-exception value. dates: '
                 + ('every date 1900-01-01..2100-12-31' if tier == 'thorough' else
-                   'every 11th date 1900..2100 (random offset, all weekdays) + 9 days around every New Year + end of every February')
+                   'every 17th date 1900..2100 (random offset, all weekdays) + 9 days around every New Year + end of every February')
                 + ' + edge years, x every date_trunc/date_part field (valid, unknown, wrong case) and extractor; date_bin: 14 strides '
                   '(days/months/years incl. 14 months) + 8 degenerate x 10 origins (incl. day 29/30/31) x sources near the origin, '
                   'on exact bin boundaries and across the range; intervals: month-end dates x 240 well-formed + 21 malformed strings; '
